@@ -8,8 +8,8 @@ B(lb, ub) == Lit("bounds", <<lb, ub>>, <<2>>)
 MC_Code == [s |-> <<115>>, t |-> <<116>>, x |-> <<120>>]
 MC_BaseCalls == <<
     Call("MkVar", 0, 0, "continuous", B(Q(0,1), NoneQ), 0, 0, 0, "s"),
-    Call("MkVar", 0, 0, "integer", B(Q(-3,2), Q(7,2)), 0, 0, 0, "t"),    \* relaxed by the LP route: its declared (non-integral) bounds are the LP bounds
-    Call("MkVec", 0, 0, "continuous", B(NoneQ, Q(5,1)), 3, 0, 0, "x"),
+    Call("MkVar", 0, 0, "integer", B(NoneQ, Q(7,2)), 0, 0, 0, "t"),    \* relaxed by the LP route: its declared (non-integral) bounds are the LP bounds
+    Call("MkVec", 0, 0, "continuous", B(Q(-1,1), Q(5,1)), 3, 0, 0, "x"),      \* two-sided: problems over x alone are bounded LPs (verdict and optimum are informative)
     Call("MkConst", 0, 0, "", LitS("int", Q(2, 1)), 0, 0, 0, ""),
     Call("MkConst", 0, 0, "", LitS("float", Q(3, 1)), 0, 0, 0, ""),
     Call("SBin", 4, 5, "+", NoLit, 0, 0, 0, ""),
